@@ -116,7 +116,6 @@ class MarkerExpression(SingleMarker):
                 return None
             pkg_spec = next(iter(specifier.to_specifierset()))
             pkg_version = pkg_spec.version
-            attached: BaseSpecifier | None = specifier
             # epoch and release segments; pre/post/dev suffixes follow them
             release = re.match(r"(?:\d+!)?\d+(?:\.\d+)*", pkg_version)
             if (
@@ -133,12 +132,11 @@ class MarkerExpression(SingleMarker):
                     + ".0" * (2 - dot_num)
                     + pkg_version[release.end() :]
                 )
-                # the specifier spells the bound differently now ("3.10" vs "3.10.0"):
-                # let the marker derive its view from its own text again
-                attached = None
-            return MarkerExpression(
-                name, pkg_spec.operator, pkg_version, _specifier=attached
-            )
+            # Do not attach `specifier` as the marker's cached view: equal versions can
+            # be spelled differently ("4" / "4.0", "3.10" / "3.10.0") and the rendering
+            # heuristics look at the spelling, so two equal markers would behave
+            # differently. The view is derived from the marker's own text on demand.
+            return MarkerExpression(name, pkg_spec.operator, pkg_version)
         assert isinstance(specifier, GenericSpecifier)
         return MarkerExpression(
             name, specifier.op, specifier.value, _specifier=specifier
